@@ -1,5 +1,6 @@
 //! Shared generators (proptest strategies).
 pub mod faultsave;
+pub mod style;
 pub mod text;
 pub mod wb;
 pub mod xlsxgen;
